@@ -160,6 +160,35 @@ def run(ctx):
         src_ok = any(y[0] == "attr" and y[2] == "meta_version" for y in walk_terms(t))
         ctx.decide("C11.5", gm, ok and src_ok, "get_magnet passes int(namespace.meta_version)",
                    "the version handed to magnet is not int(namespace.meta_version): the string choice would never equal the integers magnet compares with", c)
+    # every other caller in the package: the version it passes must be an integer (magnet compares it with 0..3 as integers;
+    # a namespace attribute of an option without type=int is a *string* and matches none of them)
+    for f in ctx.prog.functions.values():
+        if f is gm or f is fn:
+            continue
+        for c in own_nodes(f.node):
+            if not (isinstance(c, ast.Call) and any(t[0] == "pkg" and t[1] is fn for t in ctx.res.call_targets(c, f))):
+                continue
+            b = ctx.res.bind_args(fn, c, False)
+            v = b.get("version")
+            if v is None:
+                ctx.holds("C11.5", f, "%s calls magnet with the default version (automatic)" % f.name, c)
+                continue
+            t = flow.term(v, f)
+            ints = bool(t) and all((x[0] == "const" and isinstance(x[1], int) and not isinstance(x[1], bool)) or (x[0] == "ext" and x[1] == "builtins.int") for x in t)
+            strs = [x for x in t if x[0] == "attr" or (x[0] == "const" and isinstance(x[1], str))]
+            attrs = [x for x in t if x[0] == "attr"]
+            if attrs and len(attrs) == len(t):
+                prs = Parsers(ctx)
+                rws = [r for p_ in prs.sub.values() for r in p_["rows"] if r.dest in {a[2] for a in attrs}]
+                if rws and all("type" in r.kw and norm(r.kw["type"]) == "int" for r in rws):
+                    ints, strs = True, []
+            if ints:
+                ctx.holds("C11.5", f, "%s passes an integer version to magnet" % f.name, c)
+            elif strs:
+                ctx.violated("C11.5", f, "%s passes `%s` to magnet as the version: a command-line value is a string, which equals none of the integers magnet compares the version with - "
+                             "the request is then treated as 'v2 only' and a hybrid loses its btih" % (f.name, norm(v)), c)
+            else:
+                ctx.undecided("C11.5", f, "%s passes `%s` to magnet as the version; its type is not decided" % (f.name, norm(v)), c)
     pr = Parsers(ctx)
     rows = [r for p in pr.by_func("get_magnet") for r in p["rows"] if r.dest == "meta_version"]
     if not rows:
